@@ -39,7 +39,7 @@ fn info(tier: Tier) -> CheckInfo {
         ),
         assumptions: vec!["trusted base of the oracle: sha1_smol and ed25519-dalek signature verification".into(), "forgery classes, not all byte strings".into()],
     };
-    ci.rule.push_str(" Added: signed-peer lists of 16 records with the forged one last; the node's own put of every kind in flight; lookups also through the blocking Dht API.");
+    ci.rule.push_str(" Added: signed-peer lists of 16 records with the forged one last; the node's own put of every kind in flight; lookups also through the blocking Dht API; a server-mode reader all of whose responders report endpoint 0's own address as the reader's public address, confirmed by a ping from that address (immutable, salted mutable and signed-peers lookups).");
     ci
 }
 
